@@ -1455,6 +1455,166 @@ pub fn f14() -> Vec<Case> {
     out
 }
 
+/// F15: evaluation order and operand purity. Logic operators whose one operand is a BOOL
+/// *literal* or a variable and whose other operand is impure (faults for the current values, or
+/// calls a function with an in-out side effect), in both positions: the left operand is always
+/// evaluated first; only the right operand of AND/OR may be skipped, and only when the left one
+/// decides. Arithmetic/comparison identities with a literal neutral element (`x * 0`, `x - x`,
+/// `0 * f()`) must still evaluate the impure operand.
+pub fn f15() -> Vec<Case> {
+    let mut out = Vec::new();
+    let l = |x: i128| lit(int(Ty::Int, x));
+    let bump = Func {
+        name: "Bump".into(),
+        ret: Some(Ty::Bool),
+        inputs: vec![Decl::new("res", Ty::Bool)],
+        inouts: vec![Decl::new("c", Ty::Int)],
+        body: vec![assign("c", bin(Op::Add, var("c"), l(1))), assign("Bump", var("res"))],
+        ..Default::default()
+    };
+    let bumpi = Func {
+        name: "BumpI".into(),
+        ret: Some(Ty::Int),
+        inputs: vec![Decl::new("res", Ty::Int)],
+        inouts: vec![Decl::new("c", Ty::Int)],
+        body: vec![assign("c", bin(Op::Add, var("c"), l(1))), assign("BumpI", var("res"))],
+        ..Default::default()
+    };
+    let vars = || {
+        vec![
+            Decl::init("z", int(Ty::Int, 0)),
+            Decl::new("cnt", Ty::Int),
+            Decl::init("bt", V::B(true)),
+            Decl::init("bf", V::B(false)),
+            Decl::new("r", Ty::Bool),
+            Decl::new("after", Ty::Int),
+        ]
+    };
+    let pures: Vec<(&str, E)> = vec![("lit-true", lit(V::B(true))), ("lit-false", lit(V::B(false))), ("var-true", var("bt")), ("var-false", var("bf"))];
+    for op in LOGIC {
+        for (pname, pure) in &pures {
+            for res in [false, true] {
+                let impures: Vec<(&str, E)> = vec![
+                    ("faulting", bin(Op::Gt, bin(Op::Div, l(100), var("z")), l(0))),
+                    ("side-effect", E::Call("Bump".into(), vec![Arg::Pos(lit(V::B(res))), Arg::Pos(var("cnt"))])),
+                ];
+                for (iname, imp) in impures {
+                    if iname == "faulting" && res {
+                        continue; // the faulting operand has no result value to vary
+                    }
+                    for pos in ["impure-left", "impure-right"] {
+                        let e = if pos == "impure-left" { bin(op, imp.clone(), pure.clone()) } else { bin(op, pure.clone(), imp.clone()) };
+                        let mut p = prog(vars(), vec![assign("r", e), assign("after", bin(Op::Add, var("after"), l(1)))]);
+                        p.funcs.push(bump.clone());
+                        out.push(case("F15", format!("order:{}:{pos}:{iname}:{pname}", op.name()), p, 2, true));
+                    }
+                }
+            }
+        }
+    }
+    // arithmetic / comparison identities with an impure operand
+    let vars_i = || vec![Decl::init("z", int(Ty::Int, 0)), Decl::new("cnt", Ty::Int), Decl::new("ri", Ty::Int), Decl::new("rb", Ty::Bool), Decl::new("after", Ty::Int)];
+    let call = || E::Call("BumpI".into(), vec![Arg::Pos(l(7)), Arg::Pos(var("cnt"))]);
+    let div = || bin(Op::Div, l(100), var("z"));
+    let shapes: Vec<(&str, S)> = vec![
+        ("mul-zero-right:side-effect", assign("ri", bin(Op::Mul, call(), l(0)))),
+        ("mul-zero-left:side-effect", assign("ri", bin(Op::Mul, l(0), call()))),
+        ("mul-zero-right:faulting", assign("ri", bin(Op::Mul, div(), l(0)))),
+        ("mul-zero-left:faulting", assign("ri", bin(Op::Mul, l(0), div()))),
+        ("add-zero:side-effect", assign("ri", bin(Op::Add, l(0), call()))),
+        ("sub-self:side-effect", assign("ri", bin(Op::Sub, call(), call()))),
+        ("mod-one:faulting", assign("ri", bin(Op::Mod, div(), l(1)))),
+        ("eq-self:side-effect", assign("rb", bin(Op::Eq, call(), call()))),
+        ("eq-self:faulting", assign("rb", bin(Op::Eq, div(), div()))),
+    ];
+    for (name, st) in shapes {
+        let mut p = prog(vars_i(), vec![st, assign("after", bin(Op::Add, var("after"), l(1)))]);
+        p.funcs.push(bumpi.clone());
+        out.push(case("F15", format!("order:identity:{name}"), p, 2, true));
+    }
+    // conditions with a literal: IF/WHILE/CASE still evaluate an impure part
+    {
+        let mut p = prog(
+            vars(),
+            vec![
+                S::If(vec![(bin(Op::And, E::Call("Bump".into(), vec![Arg::Pos(lit(V::B(true))), Arg::Pos(var("cnt"))]), lit(V::B(false))), vec![assign("after", l(100))])], Some(vec![assign("after", bin(Op::Add, var("after"), l(1)))])),
+            ],
+        );
+        p.funcs.push(bump.clone());
+        out.push(case("F15", "order:if-condition:impure-left:side-effect:lit-false".into(), p, 2, true));
+    }
+    out
+}
+
+/// F5o: FUNCTION outputs that the call leaves unconnected. The output is a local of the call: it
+/// starts at its default in every call (functions are stateless), and a caller variable with the
+/// same name is neither read nor written.
+pub fn f5o() -> Vec<Case> {
+    let mut out = Vec::new();
+    let l = |x: i128| lit(int(Ty::Int, x));
+    let divmod = Func {
+        name: "DivMod".into(),
+        ret: Some(Ty::Int),
+        inputs: vec![Decl::new("a", Ty::Int), Decl::new("b", Ty::Int)],
+        outputs: vec![Decl::new("rest", Ty::Int)],
+        body: vec![assign("rest", bin(Op::Mod, var("a"), var("b"))), assign("DivMod", bin(Op::Div, var("a"), var("b")))],
+        ..Default::default()
+    };
+    // reads its output before assigning it
+    let acc = Func {
+        name: "Acc".into(),
+        ret: Some(Ty::Int),
+        inputs: vec![Decl::new("a", Ty::Int)],
+        outputs: vec![Decl::new("seen", Ty::Int)],
+        body: vec![assign("Acc", bin(Op::Add, var("seen"), var("a"))), assign("seen", bin(Op::Add, var("seen"), var("a")))],
+        ..Default::default()
+    };
+    for holder in ["caller-variable", "none"] {
+        for conn in ["unconnected", "connected", "positional-short"] {
+            let args = match conn {
+                "unconnected" => vec![Arg::In("a".into(), l(17)), Arg::In("b".into(), l(5))],
+                "connected" => vec![Arg::In("a".into(), l(17)), Arg::In("b".into(), l(5)), Arg::Out("rest".into(), "got".into())],
+                _ => vec![Arg::Pos(l(17)), Arg::Pos(l(5))],
+            };
+            let mut vars = vec![Decl::new("q", Ty::Int), Decl::new("got", Ty::Int), Decl::new("copy", Ty::Int)];
+            let mut p;
+            if holder == "caller-variable" {
+                vars.push(Decl::init("rest", int(Ty::Int, 7)));
+                p = prog(vars, vec![assign("q", E::Call("DivMod".into(), args)), assign("copy", var("rest"))]);
+            } else {
+                p = prog(vars, vec![assign("q", E::Call("DivMod".into(), args))]);
+            }
+            p.funcs.push(divmod.clone());
+            out.push(case("F5o", format!("function-output:{conn}:same-name-{holder}"), p, 2, true));
+        }
+    }
+    for conn in ["unconnected", "connected"] {
+        let a1 = if conn == "unconnected" { vec![Arg::In("a".into(), l(5))] } else { vec![Arg::In("a".into(), l(5)), Arg::Out("seen".into(), "got".into())] };
+        let mut p = prog(
+            vec![Decl::new("r1", Ty::Int), Decl::new("r2", Ty::Int), Decl::new("got", Ty::Int)],
+            vec![assign("r1", E::Call("Acc".into(), a1.clone())), assign("r2", E::Call("Acc".into(), a1))],
+        );
+        p.funcs.push(acc.clone());
+        out.push(case("F5o", format!("function-output:{conn}:read-before-write-twice"), p, 2, true));
+    }
+    // the same inside a function whose own local has the output's name
+    {
+        let outer = Func {
+            name: "Outer".into(),
+            ret: Some(Ty::Int),
+            inputs: vec![Decl::new("x", Ty::Int)],
+            locals: vec![Decl::init("rest", int(Ty::Int, 3))],
+            body: vec![assign("Outer", E::Call("DivMod".into(), vec![Arg::In("a".into(), var("x")), Arg::In("b".into(), l(5))])), assign("Outer", bin(Op::Add, bin(Op::Mul, var("Outer"), l(100)), var("rest")))],
+            ..Default::default()
+        };
+        let mut p = prog(vec![Decl::new("r", Ty::Int)], vec![assign("r", E::Call("Outer".into(), vec![Arg::Pos(l(17))]))]);
+        p.funcs.push(divmod.clone());
+        p.funcs.push(outer);
+        out.push(case("F5o", "function-output:unconnected:same-name-callee-local".into(), p, 2, true));
+    }
+    out
+}
+
 pub fn corpus(thorough: bool) -> Vec<Case> {
     let mut out = Vec::new();
     out.extend(f2());
@@ -1470,5 +1630,7 @@ pub fn corpus(thorough: bool) -> Vec<Case> {
     out.extend(f11(thorough));
     out.extend(f12(thorough));
     out.extend(f14());
+    out.extend(f15());
+    out.extend(f5o());
     out
 }
